@@ -44,7 +44,13 @@ def parse(out):
         r["rejected_line"] = int(m.group(1))
     r["errors"] = [e for e in re.findall(r"Error: (.*)", out)
                    if "is violated" not in e and "behavior up to this point" not in e and "postcondition" not in e.lower()]
-    r["ok"] = ("Model checking completed. No error has been found." in out) and not r["violated"] and r["rejected_line"] is None
+    done = "Model checking completed. No error has been found." in out
+    m = re.search(r"Progress: (\d+) states checked, (\d+) traces generated", out)
+    if m and not done and "Finished in" in out and not r["errors"]:      # -simulate run that generated all its traces
+        done = True
+        r["generated"] = r["distinct"] = int(m.group(1))
+        r["sim_traces"] = int(m.group(2))
+    r["ok"] = done and not r["violated"] and r["rejected_line"] is None
     r["assert"] = re.findall(r"The first argument of Assert evaluated to FALSE; the second argument was:\s*\"([^\"]*)\"", out)
     return r
 
